@@ -30,6 +30,12 @@ ValsOf(e) == [c \in Coals |-> IF \E j \in 1..Len(e.cs) : e.cs[j] = c
 Apply(T, e, j, pre) ==
   CASE e.op = "reveal"   -> Tab([pre.k EXCEPT ![e.c] = TRUE], [pre.lo EXCEPT ![e.c] = e.val], [pre.up EXCEPT ![e.c] = e.val])
     [] e.op = "unreveal" -> Tab([pre.k EXCEPT ![e.c] = FALSE], [pre.lo EXCEPT ![e.c] = 0], [pre.up EXCEPT ![e.c] = 0])
+    [] e.op = "set"      -> Tab([pre.k EXCEPT ![e.c] = TRUE], [pre.lo EXCEPT ![e.c] = e.val], [pre.up EXCEPT ![e.c] = e.val])
+    [] e.op = "unset"    -> Tab([pre.k EXCEPT ![e.c] = FALSE], [pre.lo EXCEPT ![e.c] = 0], [pre.up EXCEPT ![e.c] = 0])
+    [] e.op = "set_many" -> LET S == {e.cs[x] : x \in 1..Len(e.cs)} IN
+                            Tab([c \in Coals |-> pre.k[c] \/ c \in S],
+                                [c \in Coals |-> IF c \in S THEN ValsOf(e)[c] ELSE pre.lo[c]],
+                                [c \in Coals |-> IF c \in S THEN ValsOf(e)[c] ELSE pre.up[c]])
     [] e.op = "reset"    -> FreshTab({e.cs[x] : x \in 1..Len(e.cs)}, ValsOf(e))
     [] e.op = "compute"  -> Compute(T.objs[j].comp, T.objs[j].r, pre)
 
